@@ -208,7 +208,8 @@ func checkCmd(args []string) int {
 					f.Status = "UB-OBSERVED"
 				}
 			case "ALLOC":
-				confirmed = f.Native.Outcome == "ALLOC" || f.Native.Outcome == "PANIC" || f.Native.Outcome == "CRASH"
+				// a multi-second stall while the runtime zeroes an attacker-sized allocation is the same defect
+				confirmed = f.Native.Outcome == "ALLOC" || f.Native.Outcome == "PANIC" || f.Native.Outcome == "CRASH" || f.Native.Outcome == "HANG"
 			case "UNWIND":
 				confirmed = f.Native.Outcome == "HANG"
 			}
